@@ -43,6 +43,8 @@ Inductive dtype :=
 | DScalar                       (* h.Scalar = Union[Prefixed, Literal] with the to_scalar conversions *)
 | DPref                         (* h.Prefixed *)
 | DDec                          (* decimal.Decimal *)
+| DMut                          (* a field of a MUTABLE container type (List[..] / Dict[..] / Set[..]): the validated instance holds
+                                   a list / dict / set, which has no hash *)
 | DObj.                         (* a field of arbitrary type (Callable / a user class / Instance): holds objects that have
                                    NO JSON form - functions, lambdas, objects of user types, Instances *)
 
@@ -54,6 +56,9 @@ Inductive pval :=
 | VDecW (d : Dec.dec)                   (* levels 1, 2: a Decimal as written *)
 | VPref (c e : Z)                       (* level 3: the prefixed numbers of value c * 10^e *)
 | VDec (c e : Z)                        (* level 3: the decimals of value c * 10^e *)
+| VMut (i : N)                          (* levels 1, 2 only: the i-th UNHASHABLE value (a list, dict or set; compared by value: equal
+                                           containers built separately are one i).  It is never a cache key: `canon` refuses it,
+                                           as hash(call) raises TypeError at the cache lookup of generator.run *)
 | VObj (i : N).                         (* the i-th object without a JSON form (== and hash: identity, or the user type's own
                                            value equality: equal objects built separately are one i) *)
 
@@ -176,6 +181,7 @@ Fixpoint valid (d : dtype) (v : pval) {struct d} : bool :=
   | DPref, VPrefW _ q => Prefixed.is_prefix q
   | DDec, VDecW _ => true
   | DObj, VObj _ => true
+  | DMut, VMut _ => true
   | _, _ => false
   end.
 
@@ -245,6 +251,7 @@ Fixpoint pval_eqb (a b : pval) {struct a} : bool :=
   | VPref c e, VPref c' e' => (c =? c') && (e =? e')
   | VDec c e, VDec c' e' => (c =? c') && (e =? e')
   | VObj x, VObj y => N.eqb x y
+  | VMut x, VMut y => N.eqb x y
   | _, _ => false
   end.
 
@@ -367,6 +374,7 @@ Fixpoint validate (d : dtype) (v : pval) {struct d} : result pval :=
       end
   | DPref, VPrefW x q => if Prefixed.is_prefix q then Ok (VPrefW x q) else Error EBadKind
   | DDec, _ => o <- to_number false v ;; match o with Some x => Ok (VDecW x) | None => Error EBadKind end
+  | DMut, VMut i => Ok (VMut i)                     (* List / Dict / Set: pydantic keeps the container *)
   | DObj, VObj i => Ok (VObj i)                     (* arbitrary types: an isinstance check, the object is kept as it is *)
   | _, _ => Error EBadKind
   end.
@@ -385,6 +393,7 @@ Fixpoint canon (v : pval) {struct v} : result pval :=
       Ok (VRec r)
   | VFloat r => Ok (VFloat (fzero r))
   | VPref _ _ | VDec _ _ => Error EBadKind          (* not a level-2 value *)
+  | VMut _ => Error EBadKind                        (* unhashable: hash(GeneratorCall) raises TypeError, the call has no cache key *)
   | _ => Ok v
   end.
 
@@ -508,7 +517,7 @@ Fixpoint encode (v : pval) {struct v} : jv :=
   | VLit s => JObj [("text", JStr s)]
   | VPref c e => JObj [("prefixed", JStr (canon_str c e))]
   | VDec c e => JObj [("decimal", JStr (canon_str c e))]
-  | VPrefW _ _ | VDecW _ => JNull          (* not cache-key values *)
+  | VPrefW _ _ | VDecW _ | VMut _ => JNull (* not cache-key values *)
   | VObj i => JNoForm i
   end.
 
@@ -543,3 +552,18 @@ Fixpoint has_obj (v : pval) : bool :=
 
 Definition unique_name_f (fs : list field) (vs : list pval) : result uname :=
   if existsb has_obj vs then Error EName else unique_name fs vs.
+
+(* ---------- parameter values without a hash (strengthening round 3) ----------
+   A field of a mutable container type (List / Dict / Set) validates - pydantic keeps the list / dict / set - but the
+   frozen dataclass hash of the parameter instance, and with it hash(GeneratorCall), raises TypeError.  generator.run
+   looks the call up in `Cache.done` FIRST: the TypeError leaves `run` before anything was pushed, the body does not run, no
+   module is handed out.  In the model such a call has no key (`canon` refuses `VMut`, so `norm_args` and `mk_key` fail):
+   it is refused at every position of every history without touching the state.  The property's "equal parameters ->
+   identical module, body runs once" is kept by never answering; an implementation that answers such a call has to answer
+   the equal call with the identical module (it cannot: it has no key to find it by). *)
+Fixpoint has_mut (v : pval) : bool :=
+  match v with
+  | VMut _ => true
+  | VRec vs => (fix go (vs : list pval) : bool := match vs with [] => false | x :: vs' => has_mut x || go vs' end) vs
+  | _ => false
+  end.
